@@ -54,6 +54,7 @@ def correspond(ctx):
         jobs.append(("peak_iter_fwd", 10 ** 11, 10 ** 11 + L, 0))
     for L in (5 * 10 ** 5, 5 * 10 ** 6, 6 * 10 ** 7):
         jobs.append(("peak_iter_bwd", 10 ** 10 - L, 10 ** 10, 0))
+        jobs.append(("peak_iter_bwd", 10 ** 10 - L, 10 ** 10, 1))      # the same with stop_hint = the lower end
     jobs.append(("peak_iter_fwd", 0, 3 * 10 ** 7, 0))
     for s, n, back in ((1000, 2000, 0), (10 ** 9, 3000, 0), (10 ** 6, 500, 1), (0, 1500, 1), (10 ** 13, 100, 0)):
         jobs.append(("clearsize", s, n, back))
@@ -90,8 +91,15 @@ def correspond(ctx):
     # shape: same magnitude, span x1 / x30 / x1000 -> same peak
     groups = {}
     for j, p in peaks.items():
+        if j[0] == "peak_iter_bwd" and j[3] == 1:
+            # with a stop_hint at the far end the first chunk may only get shorter: never more memory than without the hint
+            ref = peaks.get((j[0], j[1], j[2], 0))
+            if ref is not None and p > 1.3 * ref + 65536:
+                mismatches.append({"key": "peak-hint", "what": "backward iteration from %d down to %d: with stop_hint = %d the peak heap is %d bytes, without a hint %d" % (j[2], j[1], j[1], p, ref),
+                                   "failing_input": {"jobs": [list(j), [j[0], j[1], j[2], 0]], "peaks": [p, ref]}})
+            continue
         if j[0].startswith("peak_"):
-            key = (j[0], j[1] if j[0] != "peak_iter_bwd" else j[2])
+            key = (j[0], j[1] if j[0] != "peak_iter_bwd" else j[2], j[3])
             groups.setdefault(key, []).append((j[2] - j[1], p, j))
     for key, lst in groups.items():
         lst.sort()
@@ -105,7 +113,7 @@ def correspond(ctx):
                                    "failing_input": {"jobs": [l[2] for l in lst], "peaks": [l[1] for l in lst]}})
     ev = dist["capacity_cases"] + dist["measurements"]
     return {"evaluations": ev, "distinct_nontrivial": len(sigs),
-            "rule": "forward buffer size for (start, stop_hint) around the cached-prime table, explicit far hints and random pairs (implementation vs model vs 1024); peak heap of count_primes / forward / backward iteration at fixed magnitude with the span varied over three orders of magnitude; bytes held after clear() and after destruction for 5 histories. distinct = distinct (measurement kind, span class) / (capacity class)",
+            "rule": "forward buffer size for (start, stop_hint) around the cached-prime table, explicit far hints and random pairs (implementation vs model vs 1024); peak heap of count_primes / forward / backward iteration (without and with a stop_hint at the far end) at fixed magnitude with the span varied over three orders of magnitude; bytes held after clear() and after destruction for 5 histories. distinct = distinct (measurement kind, span class) / (capacity class)",
             "samples": samples[:8], "mismatches": sorted(mismatches, key=lambda m: 0 if m.get("failing_input") else 1)[:20], "distribution": dist, "variants": ["default"]}
 
 
